@@ -107,6 +107,9 @@ func substAccept(t []byte, nonce []byte) []byte {
 	wrong := append([]byte(nil), acc...)
 	wrong[5] ^= 1
 	t = bytes.Replace(t, []byte("@@ACCEPTPAD@@"), append(append([]byte(nil), acc...), '='), -1)
+	last := append([]byte(nil), acc...)
+	last[27] = 'A'
+	t = bytes.Replace(t, []byte("@@ACCEPTLAST@@"), last, -1)
 	t = bytes.Replace(t, []byte("@@ACCEPT27@@"), acc[:27], -1)
 	t = bytes.Replace(t, []byte("@@ACCEPTX@@"), wrong, -1)
 	t = bytes.Replace(t, []byte("@@ACCEPTLOW@@"), bytes.ToLower(acc), -1)
@@ -364,7 +367,7 @@ type rmand struct {
 var respMandatory = []rmand{
 	{"Upgrade", "websocket", []string{"WebSocket", "WEBSOCKET", " websocket ", "\twebsocket"}, []string{"websockets", "h2c", "", "web socket", "websocket, foo"}},
 	{"Connection", "Upgrade", []string{"upgrade", "UPGRADE", " Upgrade\t"}, []string{"keep-alive", "close", "", "upgrades", "keep-alive, Upgrade", "Upgrade, keep-alive"}},
-	{"Sec-WebSocket-Accept", "@@ACCEPT@@", []string{" @@ACCEPT@@ "}, []string{"@@ACCEPTPAD@@", "@@ACCEPTX@@", "@@ACCEPT27@@", "@@ACCEPTLOW@@", "", "s3pPLMBiTxaQ9kYGzzhZRbK+xOo=", "@@ACCEPT@@ x", "@@ACCEPT@@, @@ACCEPT@@"}},
+	{"Sec-WebSocket-Accept", "@@ACCEPT@@", []string{" @@ACCEPT@@ "}, []string{"@@ACCEPTPAD@@", "@@ACCEPTLAST@@", "@@ACCEPTX@@", "@@ACCEPT27@@", "@@ACCEPTLOW@@", "", "s3pPLMBiTxaQ9kYGzzhZRbK+xOo=", "@@ACCEPT@@ x", "@@ACCEPT@@, @@ACCEPT@@"}},
 }
 
 type respSpec struct {
